@@ -44,7 +44,10 @@ RAW_BLOCK = ["html_block", "raw_dir", "evalrst_raw", "evalrst_rawrole", "html_ad
 RAW_INLINE = ["html_inline", "raw_role", "strike", "hardbreak", "subst_html"]
 INLINE_CTX = ["para", "heading", "em", "cell", "li"]
 FILE_KINDS = ["inc", "inc_literal", "inc_code", "inc_rawhtml", "raw_file", "raw_url", "csv_file", "csv_url",
-              "rst_include", "rst_raw_file", "rst_csv_file", "rst_include_literal"]
+              "rst_include", "rst_raw_file", "rst_csv_file", "rst_include_literal",
+              # other spellings of the file name: absolute, and docutils' '<...>' "standard include" form (which joins the
+              # name onto docutils' own data directory, so an absolute or dotted name inside the brackets reaches any file)
+              "inc_abs", "inc_angle", "inc_angle_literal", "inc_angle_code", "rst_include_angle"]
 NEEDS_RAW_TOO = {"raw_file", "raw_url", "rst_raw_file"}
 WRAPS = ["quote", "ul", "ol", "note", "tip", "div", "dd", "foot"]
 
@@ -186,6 +189,21 @@ def build(case, tmpdir):
             elif k == "inc_code":
                 files[f"sent{n}.md"] = f"{vf} = 1\n"
                 body = [f"```{{include}} sent{n}.md", ":code: python", "```"]
+            elif k == "inc_abs":
+                files[f"sent{n}.md"] = f"{vf} para\n"
+                body = [f"```{{include}} {tmpdir}/sent{n}.md", "```"]
+            elif k == "inc_angle":
+                files[f"sent{n}.md"] = f"{vf} para\n"
+                body = [f"```{{include}} <{tmpdir}/sent{n}.md>", "```"]
+            elif k == "inc_angle_literal":
+                files[f"sent{n}.md"] = f"{vf} para\n"
+                body = [f"```{{include}} <{tmpdir}/sent{n}.md>", ":literal:", "```"]
+            elif k == "inc_angle_code":
+                files[f"sent{n}.md"] = f"{vf} = 1\n"
+                body = [f"```{{include}} <{tmpdir}/sent{n}.md>", ":code: python", "```"]
+            elif k == "rst_include_angle":
+                files[f"sent{n}.rst"] = f"{vf} para\n"
+                body = ["```{eval-rst}", f".. include:: <{tmpdir}/sent{n}.rst>", "```"]
             elif k == "inc_rawhtml":
                 files[f"sent{n}.md"] = f"{vf} para\n\n<div>\n{tag}\n</div>\n\ninline {tag} html\n"
                 body = [f"```{{include}} sent{n}.md", "```"]
